@@ -676,3 +676,50 @@ def check_c08(tier, t0):
 
 
 CHECKS["C08"] = check_c08
+
+
+# ------------------------------------------------------------------------------------------------
+# C15  shipped scenarios
+# ------------------------------------------------------------------------------------------------
+def check_c15(tier, t0):
+    from common import workdir, REPLAYS
+    wd = workdir("C15-%s" % tier)
+    draws = "100" if tier == "thorough" else "5"
+    traces = os.path.join(wd, "traces.ndjson")
+    out = os.path.join(wd, "out.json")
+    art = os.path.join(REPLAYS, "C15", "draws")
+    run_harness(["scenarios", "--draws", draws, "--traces", traces, "--out", out, "--artefacts", art])
+    s = json.load(open(out))
+    tv = msglevel.validate_traces(wd, traces, cfg="Pipeline.cfg", module="Pipeline.tla")
+    arts = {a["id"]: a["artefact"] for a in s["artefacts"]}
+    vio = []
+    for r in tv["results"]:
+        for d in r["dev"]:
+            kind = d.split(":")[0]
+            detail = d[len(kind) + 1:] if ":" in d else ""
+            # the first path element / error code is specific enough to tell findings apart
+            key = detail.split(" ")[0][:60] if kind in ("ParsedDiffersFromGenerated", "NotInReferenceLayout") else detail[:40]
+            vio.append({"sig": "C15|%s|%s|%s" % (r["scenario"], kind, key),
+                        "replay": {"kind": "scenario", "scenario": r["scenario"], "artefact": arts.get(r["id"]), "deviation": d}})
+    log("[C15] %d scenario files x %s draws = %d pipeline runs, %d trace lines explained, %d runs flagged" %
+        (s["scenario_files"], draws, s["runs"], tv["lines"], len(tv["results"])))
+    if s["runs"] == 0:
+        raise ToolError("no scenario could be run")
+    cov = {
+        "states": tv["states"], "transitions": tv["generated"],
+        "traces_validated_against_impl": s["runs"], "trace_events_explained": tv["lines"],
+        "evaluations": s["runs"], "distinct_nontrivial": s["runs"],
+        "rule": "every scenario file under test_scenarios (all 30 types) x N random draws; each draw is one run "
+                "generate_mt -> publish_mt -> validate_mt -> parse_mt whose four stage results are validated by TLC against Pipeline.tla "
+                "(stage order, published tags accepted by the reference layout via Walker!Walk, no validation error, parsed JSON exactly "
+                "equal to generated JSON); every run is a distinct random draw",
+        "samples": s["samples"] or [{}],
+        "scenario_files": s["scenario_files"], "draws_per_file": int(draws),
+        "exhaustive": False,
+    }
+    assumptions = ["datafake draws are not seedable from outside: the generated JSON and published text of every failing draw are saved as replay artefacts",
+                   "exact comparison: numbers as decimals, null / all-null object / empty array equal to absent"]
+    return report("C15", tier, "model_checking", vio, cov, assumptions, t0)
+
+
+CHECKS["C15"] = check_c15
